@@ -20,6 +20,71 @@ type Obj interface {
 	Final() string
 }
 
+// runPCT: probabilistic concurrency testing (Burckhardt et al.) over macro steps. Random thread priorities,
+// depth-1 random priority change points among the first k macro steps; always runs the highest-priority
+// thread that is not done; a thread that blocks or spins for long is demoted.
+func runPCT(s *vsched.Sched, p []int64, step func(int), boundary func(string) bool, stuck *bool) {
+	seed, depth, k := p[0], int(p[1]), int(p[2])
+	if depth < 1 {
+		depth = 1
+	}
+	if k < 1 {
+		k = 1
+	}
+	x := uint64(seed)*0x9E3779B97F4A7C15 + 0xD1B54A32D192ED03
+	next := func(n int) int {
+		x ^= x << 13
+		x ^= x >> 7
+		x ^= x << 17
+		return int(x % uint64(n))
+	}
+	n := s.N()
+	prio := make([]int, n)
+	perm := make([]int, n)
+	for i := range perm {
+		perm[i] = i
+	}
+	for i := n - 1; i > 0; i-- {
+		j := next(i + 1)
+		perm[i], perm[j] = perm[j], perm[i]
+	}
+	for i, t := range perm {
+		prio[t] = depth + i
+	}
+	change := map[int]int{}
+	for i := 0; i < depth-1; i++ {
+		change[1+next(k)] = depth - 2 - i
+	}
+	low := 0
+	run := make([]int, n)
+	for steps := 1; steps < 4*FinishCap && !s.AllDone() && !*stuck; steps++ {
+		best := -1
+		for t := 0; t < n; t++ {
+			if !s.Done(t) && (best < 0 || prio[t] > prio[best]) {
+				best = t
+			}
+		}
+		if best < 0 {
+			return
+		}
+		before := s.At(best)
+		step(best)
+		for i := 0; i < 200 && !s.Done(best) && !*stuck && !boundary(s.At(best)); i++ {
+			step(best)
+		}
+		run[best]++
+		if v, ok := change[steps]; ok {
+			prio[best] = v
+		}
+		// a thread that spins on the same point (blocked lock, wait loop) yields to everybody else
+		if !s.Done(best) && s.At(best) == before && run[best] > 8 {
+			low--
+			prio[best] = low
+			run[best] = 0
+		}
+	}
+}
+
 // StepTimeout bounds one controlled step (a thread that does not reach its next
 // point in time is reported as stuck, never waited for forever).
 var StepTimeout = 3 * time.Second
@@ -46,7 +111,20 @@ func RunConc(line string, mk func(cfg string, nthreads int) Obj) string {
 	// models): step thread tid until it is parked at a label of the object's boundary set (or done)
 	var sched []int
 	var star []bool
-	for _, s := range strings.Fields(parts[2]) {
+	var pct []int64
+	schedFields := strings.Fields(parts[2])
+	if len(schedFields) == 4 && schedFields[0] == "pct" {
+		// `pct <seed> <depth> <k>`: online PCT scheduler over macro steps (search only; deterministic for a seed)
+		for _, f := range schedFields[1:] {
+			n, err := strconv.ParseInt(f, 10, 64)
+			if err != nil {
+				return "bad-case"
+			}
+			pct = append(pct, n)
+		}
+		schedFields = nil
+	}
+	for _, s := range schedFields {
 		st := strings.HasSuffix(s, "*")
 		n, err := strconv.Atoi(strings.TrimSuffix(s, "*"))
 		if err != nil {
@@ -85,6 +163,9 @@ func RunConc(line string, mk func(cfg string, nthreads int) Obj) string {
 	boundary := func(string) bool { return true }
 	if b, ok := obj.(interface{ Boundary(label string) bool }); ok {
 		boundary = b.Boundary
+	}
+	if pct != nil {
+		runPCT(s, pct, step, boundary, &stuck)
 	}
 	for i, tid := range sched {
 		if tid < 0 || tid >= s.N() {
